@@ -61,6 +61,46 @@ Example C16_nonvacuous :
   cnt w3 1 = 2%Z /\ fired w3 = [0; 2].
 Proof. vm_compute. repeat split; reflexivity. Qed.
 
+(* ---- _emit bridges (harness/mkprops_emit.py): begin ---- *)
+(* Stream._emit, Stream._retain_refs and Stream._release_refs are the ones regenerated from the source under test on this
+   run: Gen/KN__refs.v and Gen/KN__emit.v are written by harness/gen_emit.py from the python AST of streamz/core.py,
+   statement by statement, in the world-level monad of Base/MiniPyW.v (an exception raised by `downstream.update` unwinds
+   the loop; the returned list of awaitables is represented by the status only).  Base/BridgeEmit.v proves that they are
+   the model's retain / release / push: `downstream.update` is the parameter call_update (log the call, evaluate the node's
+   update, run its action list with the recursive push), `self.downstreams` is read through the model's downs, and the
+   model's deliver is that call followed by the release - unless the call unwinds. *)
+From SZ Require Import Base.MiniPyW Base.BridgeEmit.
+Theorem C16_emit_matches_source :
+  forall fuel g depth n w x m,
+  push (S fuel) g depth n w x m =
+  Gen.KN__emit.gen_emit (fun w => downs g w n) (call_update_of fuel g depth n) w x m.
+Proof. exact bridge_emit. Qed.
+Print Assumptions C16_emit_matches_source.
+Theorem C16_emit_matches_source_any_callee :
+  forall emitfrom g depth n w x m,
+  (let ds := downs g w n in
+   fold_left (deliver emitfrom g depth n x m) ds (retain w m (Z.of_nat (length ds)), SOk)) =
+  Gen.KN__emit.gen_emit (fun w => downs g w n) (call_update emitfrom g depth n) w x m.
+Proof. exact bridge_emit_gen. Qed.
+Print Assumptions C16_emit_matches_source_any_callee.
+Theorem C16_deliver_is_call_then_release :
+  forall emitfrom g depth n x m w s d, status_go s = true ->
+  deliver emitfrom g depth n x m (w, s) d =
+  let '(w', s') := call_update emitfrom g depth n d w x m in
+  if status_go s' then (release w' m 1, status_join s s') else (w', s').
+Proof. exact deliver_call_release. Qed.
+Print Assumptions C16_deliver_is_call_then_release.
+Theorem C16_deliver_skipped_after_unwinding :
+  forall emitfrom g depth n x m w s d, status_go s = false -> deliver emitfrom g depth n x m (w, s) d = (w, s).
+Proof. exact deliver_stop. Qed.
+Print Assumptions C16_deliver_skipped_after_unwinding.
+Theorem C16_coroutine_call_never_unwinds_with_exception :
+  forall emitfrom g depth n d w x m, is_coroutine (nkind (gnode g d)) = true ->
+  snd (call_update emitfrom g depth n d w x m) <> SRaise.
+Proof. exact call_update_coroutine. Qed.
+Print Assumptions C16_coroutine_call_never_unwinds_with_exception.
+(* ---- _emit bridges (harness/mkprops_emit.py): end ---- *)
+
 (* ---- generated by harness/mkprops_sync.py: begin ---- *)
 From SZ Require Sync.Feedback.
 From SZ Require Sync.RefCount.
